@@ -152,6 +152,7 @@ func replayC01(c *core.Ctx, v *core.Violation) (bool, string) {
 func runC01(c *core.Ctx) {
 	pool := cfg.NewPool()
 	all := cfg.All()
+	rich := cfg.RichSpecs()
 	corpus := loadCorpus(c)
 	r := c.Rng
 
@@ -185,6 +186,15 @@ func runC01(c *core.Ctx) {
 		for j, sp := range specs1 {
 			c01Check(c, pool, sp, src, (i+j)%7 == 0)
 		}
+		// extensions built with non-default options (rotating in quick, all in thorough)
+		if c.Quick() {
+			c01Check(c, pool, rich[i%len(rich)], src, false)
+			c01Check(c, pool, rich[(i/len(rich)+1)%len(rich)], src, false)
+		} else {
+			for _, sp := range rich {
+				c01Check(c, pool, sp, src, false)
+			}
+		}
 		c.Count("short_strings", 1)
 		if c.WantSample() && i%997 == 0 {
 			c.Sample(map[string]any{"kind": "short", "input": string(src), "configs": len(specs1)})
@@ -201,6 +211,9 @@ func runC01(c *core.Ctx) {
 		src := []byte(wl.ShortAt(wl.AlphabetWide, wideLen, i))
 		for j, sp := range all {
 			c01Check(c, pool, sp, src, (i+j)%11 == 0)
+		}
+		for _, sp := range rich {
+			c01Check(c, pool, sp, src, false)
 		}
 		c.Count("wide_short_strings", 1)
 	}
@@ -230,6 +243,8 @@ func runC01(c *core.Ctx) {
 			var sp cfg.Spec
 			if k < 2 {
 				sp = all[(cfg.ExtCJKSimple+r.Intn(3))*32+r.Intn(32)]
+			} else if k == 7 {
+				sp = rich[r.Intn(len(rich))]
 			} else {
 				sp = all[r.Intn(len(all))]
 			}
@@ -246,7 +261,7 @@ func runC01(c *core.Ctx) {
 	if !c.Quick() {
 		sizes = append(sizes, 20000, 60000)
 	}
-	deepSpecs := []cfg.Spec{{Ext: cfg.ExtAll, AutoHeadingID: true, Attribute: true}, {Ext: cfg.ExtCore}, {Ext: cfg.ExtCJKCSS3, XHTML: true, HardWraps: true}}
+	deepSpecs := []cfg.Spec{{Ext: cfg.ExtAll, AutoHeadingID: true, Attribute: true}, {Ext: cfg.ExtCore}, {Ext: cfg.ExtCJKCSS3, XHTML: true, HardWraps: true}, {Ext: cfg.ExtAll, Rich: true, Unsafe: true}}
 	k := 0
 	for _, fam := range wl.DeepFamilies {
 		for _, n := range sizes {
